@@ -155,6 +155,8 @@ const FLOAT_POOL: &[&str] = &["0.0", "1.0", "0.5", "2.5", "1.5", "0.1", "3.25", 
 const FLOAT_EXTREME: &[&str] = &[
     "1e15", "1e16", "9007199254740993.0", "1e308", "1e-7", "123456.789", "0.30000000000000004", "1e-320",
     "99999999999999.5", "1e+2", "5e-324", "1e100", "0.000001", "4503599627370496.5",
+    // beyond the range of a double: read as infinity
+    "1e309", "1e999", "2e308",
 ];
 pub const LEXICAL_FIELD_NAMES: &[&str] = &[
     "elseif", "for", "function", "goto", "local", "repeat", "return", "then", "until", "while", "_", "__", "_x", "x_",
@@ -197,7 +199,8 @@ impl<'t, 'a, 'b> Gen<'t, 'a, 'b> {
         match self.t.weighted(&w) {
             0 => self.scalar_ty(),
             1 => {
-                let n = self.t.weighted(&[0, 5, 60, 25, 0]).max(1);
+                // (the unit tuple `()` is a value type of its own, not `void`)
+                let n = self.t.weighted(&[3, 5, 60, 25, 0]);
                 let mut ts = Vec::new();
                 for _ in 0..n {
                     ts.push(self.value_ty(depth - 1));
@@ -1307,8 +1310,36 @@ impl<'t, 'a, 'b> Gen<'t, 'a, 'b> {
         let mut out = Vec::new();
         // the position at which the value is held
         let same = hty == ret;
-        let pos = self.t.below(if same { 4 } else { 2 });
+        let scalar_ret = matches!(ret, Ty::Int | Ty::Str | Ty::Bool);
+        let mut positions: Vec<usize> = vec![0, 1, 4];
+        if same {
+            positions.extend([2, 3]);
+        }
+        if scalar_ret {
+            positions.push(5);
+        }
+        let pos = *self.t.pick(&positions);
         match pos {
+            4 => {
+                // argument of an immediately applied function literal: `(fn p, q -> p)(held, call)`
+                self.fn_exprs += 1;
+                let pv = self.fresh("p", hty.clone(), VarKind::Param, false);
+                let qv = self.fresh("p", ret.clone(), VarKind::Param, false);
+                let def = FnDef { params: vec![pv, qv], ret: hty.clone(), body: Block { stmts: vec![], value: Some(Box::new(var(&self.p, pv))) }, pure: false };
+                let lty = Ty::Fn(vec![hty.clone(), ret.clone()], Box::new(hty.clone()), false);
+                let applied = e(hty.clone(), EKind::Call(Box::new(e(lty, EKind::Lambda(Box::new(def)))), vec![held, call]));
+                let h = self.local("h", hty.clone(), false, false);
+                out.push(Stmt::Def { var: h, mutable: false, value: applied });
+                out.push(print_stmt(var(&self.p, h)));
+            }
+            5 => {
+                // operand of a string concatenation: `as_str(held) + as_str(call)`
+                let l = e(Ty::Str, EKind::Std(StdFn::AsStr, vec![held]));
+                let r = e(Ty::Str, EKind::Std(StdFn::AsStr, vec![call]));
+                let h = self.local("h", Ty::Str, false, false);
+                out.push(Stmt::Def { var: h, mutable: false, value: bin(BinOp::Add, Ty::Str, l, r) });
+                out.push(print_stmt(var(&self.p, h)));
+            }
             0 | 1 => {
                 // tuple element (before the call: held across it; after the call: control)
                 // (a copy of an expression containing `<!>` would print one uid on two lines: no control copy then)
@@ -1360,11 +1391,81 @@ impl<'t, 'a, 'b> Gen<'t, 'a, 'b> {
                 None
             }
         });
-        let which = match self.t.below(5) {
+        let which = match self.t.below(6) {
             4 if plain_blob.is_none() => 1,
+            5 if !self.cfg.methods => 2,
             k => k,
         };
         match which {
+            5 => {
+                // one blob-literal site evaluated several times (a constructor function), methods reaching the object
+                // through `self`, called on objects that are not the newest one from that site
+                let bi = self.p.blobs.len();
+                self.p.blobs.push(BlobDecl {
+                    name: format!("B{}", bi),
+                    fields: vec![
+                        FieldDecl { name: "fa".into(), ty: Ty::Int },
+                        FieldDecl { name: "inc".into(), ty: fn_int.clone() },
+                        FieldDecl { name: "get".into(), ty: fn_int.clone() },
+                    ],
+                });
+                let bty = Ty::Blob(bi);
+                let s0 = self.fresh("p", Ty::Int, VarKind::Param, false);
+                let self_var = self.fresh("self", bty.clone(), VarKind::SelfVar, true);
+                let step = self.t.range(1, 9);
+                let self_fa = |g: &Self| e(Ty::Int, EKind::Field(Box::new(var(&g.p, self_var)), "fa".into()));
+                let inc = FnDef {
+                    params: vec![],
+                    ret: Ty::Int,
+                    body: Block {
+                        stmts: vec![Stmt::Assign { target: LValue::Field(Box::new(var(&self.p, self_var)), "fa".into()), op: AssignOp::Add, value: int(step) }],
+                        value: Some(Box::new(self_fa(self))),
+                    },
+                    pure: false,
+                };
+                let get = FnDef { params: vec![], ret: Ty::Int, body: Block { stmts: vec![], value: Some(Box::new(self_fa(self))) }, pure: false };
+                let lit = e(
+                    bty.clone(),
+                    EKind::BlobNew {
+                        blob: bi,
+                        self_var,
+                        fields: vec![
+                            ("fa".into(), var(&self.p, s0)),
+                            ("inc".into(), e(fn_int.clone(), EKind::Lambda(Box::new(inc)))),
+                            ("get".into(), e(fn_int.clone(), EKind::Lambda(Box::new(get)))),
+                        ],
+                    },
+                );
+                let mk = FnDef { params: vec![s0], ret: bty.clone(), body: Block { stmts: vec![], value: Some(Box::new(lit)) }, pure: false };
+                let mk_ty = Ty::Fn(vec![Ty::Int], Box::new(bty.clone()), false);
+                let mkv = self.fresh("h", mk_ty.clone(), VarKind::Local, false);
+                out.push(Stmt::Def { var: mkv, mutable: false, value: e(mk_ty, EKind::Lambda(Box::new(mk))) });
+                let k = self.t.range(2, 3) as usize;
+                let mut objs = Vec::new();
+                let method = |g: &Self, o: VarId, m: &str| {
+                    e(Ty::Int, EKind::Call(Box::new(e(fn_int.clone(), EKind::Field(Box::new(var(&g.p, o)), m.to_string()))), vec![]))
+                };
+                for i in 0..k {
+                    let init = self.t.range(0, 9) * 10i64.pow(i as u32 + 1);
+                    let o = self.local("v", bty.clone(), false, false);
+                    out.push(Stmt::Def { var: o, mutable: false, value: e(bty.clone(), EKind::Call(Box::new(var(&self.p, mkv)), vec![int(init)])) });
+                    objs.push(o);
+                    // a method of the object made just now, and (below) of older ones
+                    if self.t.bool() {
+                        out.push(print_stmt(method(self, o, "inc")));
+                    }
+                }
+                let n = self.t.below(4) + 3;
+                for _ in 0..n {
+                    let o = objs[self.t.below(objs.len())];
+                    let x = match self.t.below(3) {
+                        0 => method(self, o, "inc"),
+                        1 => method(self, o, "get"),
+                        _ => e(Ty::Int, EKind::Field(Box::new(var(&self.p, o)), "fa".into())),
+                    };
+                    out.push(print_stmt(x));
+                }
+            }
             4 => {
                 // an assignment whose target contains a re-entrant call: `pick(n - 1).f = <value of this activation>`
                 // (the recursive call runs the same assignment statement again, with another value)
